@@ -1043,3 +1043,19 @@ for _p in ('C01', 'C02'):
     PLAN[_p]['stages'] = (lambda f: (lambda tier, seed: f(tier, seed) + [sparse_hashes(tier)]))(PLAN[_p]['stages'])
     PLAN[_p]['rule'] += (' Stage core_prove_sparsehash: blocks and proofs with leaf values that are zero except for one byte among bytes 16..23 '
                          '(symbolic hashing option sparse=1; Stump and map forests).')
+
+
+# --------------------------------------------------------------------------- mid-size random histories with a light client that holds many leaves
+def drive_mid(tier):
+    q = tier == 'quick'
+    return {'kind': 'drive', 'name': 'drive_mid', 'cmd': 'drive', 'trace_module': 'CoreTrace',
+            'trace_cfg': {'invariants': ['TraceReport']},
+            'x': 'big=3,histories=%d,maxn=400' % (8 if q else 60), 'timeout': 900 if q else 7200}
+
+
+for _p in ('C07', 'C08'):
+    PLAN[_p]['stages'] = (lambda f: (lambda tier, seed: f(tier, seed) + [drive_mid(tier)]))(PLAN[_p]['stages'])
+    PLAN[_p]['rule'] += (' Stage drive_mid: scripted histories on forests of 70-250 leaves (one big tree and several low trees) in which the light client '
+                         'remembers two additions out of three (cached proofs with dozens of targets): leaves of the big tree go, all leaves of the low trees '
+                         'go while one or two additions run over the chain of emptied roots, Undo, the same deletions with other additions, a random block, '
+                         'Undo; TLC (CoreTrace) judges the roots, the positions and what the client holds after every step.')
